@@ -30,6 +30,7 @@ func runC12(c *Ctx) {
 	defer c12OffsetScan(c)
 	tokenStorageFresh(c, "R10")
 	eofTokenPosition(c, "R14")
+	unterminatedLiteralPosition(c, "R14")
 	defer c.shared("R13", "C06/R9", "a node's position is that of the token it was parsed from: the parser keeps no node or token beyond the cursor, so nothing parsed earlier is handed out again for a later occurrence", keyHas("parser-state"), runC06)
 	defer c.shared("R12", "C11/R2", "the error reported is the first fault met: the parser hands every error of a sub-parser on unchanged — it does not discard it, rewind and report what a second attempt at the same text finds (a different token, possibly on another line)", func(o Obligation) bool {
 		return !strings.HasPrefix(o.Key, "(*lang.Evaluator)") && !strings.HasPrefix(o.Key, "cli.")
@@ -950,5 +951,34 @@ func eofTokenPosition(c *Ctx, rule string) {
 	}
 	if n == 0 {
 		c.undecided(rule, "eof-token-position", p.Pos(nx.Pos()), "no EOF token result found in Next")
+	}
+}
+
+// unterminatedLiteralPosition (R14): a string or regex literal may run over line breaks, so when the
+// input ends inside one the only offset known to lie on the line of the fault is the opening
+// delimiter's: the `unexpected EOF` errors of the lexer are positioned at the token start (the last
+// byte consumed may be the newline that ends the program, whose "line" is the empty one after it).
+func unterminatedLiteralPosition(c *Ctx, rule string) {
+	p := c.P
+	c.note("%s unterminated-literal-position: every call of Lexer.error whose message starts with `unexpected EOF` passes l.tokenStart as the position.", rule)
+	n := 0
+	for _, fn := range p.Funcs {
+		if !p.InLang(fn) || p.inTestFile(fn) {
+			continue
+		}
+		for _, call := range callsIn(fn) {
+			if !staticCalleeIs(call, "(*lang.Lexer).error") || len(call.Common().Args) < 3 {
+				continue
+			}
+			if !strings.Contains(p.Render(call.Common().Args[2]), "unexpected EOF") {
+				continue
+			}
+			n++
+			pos := p.Render(call.Common().Args[1])
+			c.check(pos == "l.tokenStart", rule, fmt.Sprintf("unterminated-literal-position %s #%d", shortName(fn), n), p.InstrPos(call), "positioned at the token start", "the `unexpected EOF` error of an unterminated literal is positioned at "+pos+", not at the opening delimiter: when the program ends in a newline that offset is the newline itself, and the error names the empty line after the program (column -1) instead of the line the literal starts on")
+		}
+	}
+	if n < 1 {
+		c.undecided(rule, "unterminated-literal-position", "", fmt.Sprintf("%d `unexpected EOF` errors found in the lexer (string and regex today)", n))
 	}
 }
